@@ -142,6 +142,12 @@ func (p Precompile) Run(evm *vm.EVM, contract *vm.Contract, readOnly bool) (bz [
 
 	writeCache()
 
+	// the transfer may have converted ERC20 tokens of the sender into coins: an EVM execution of its
+	// own that wrote the token contract's storage behind the back of this transaction's stateDB
+	if method.Name == TransferMethod {
+		stateDB.RefreshStorage()
+	}
+
 	return bz, nil
 }
 
